@@ -275,11 +275,12 @@ func replayFindings(prog *Program, cfg *CheckCfg, pkgDir string, fl []*Finding, 
 			}
 			continue
 		}
-		timedOut := !ok && (strings.Contains(text, "test timed out") || strings.Contains(text, "all goroutines are asleep"))
+		timedOut := !ok && (strings.Contains(text, "test timed out") || strings.Contains(text, "all goroutines are asleep") ||
+			strings.Contains(text, "stack overflow") || strings.Contains(text, "goroutine stack exceeds"))
 		if !ok {
 			got = "no result: " + tail(strings.TrimSpace(text), 300)
 			if timedOut {
-				got = "timeout (test timed out / deadlock)"
+				got = "timeout (test timed out / deadlock / stack overflow)"
 			} else if i := strings.Index(text, "panic:"); i >= 0 {
 				got = strings.SplitN(text[i:], "\n", 2)[0]
 			}
